@@ -219,6 +219,58 @@ pub fn run(suite: &str, thorough: bool, seed: u64, shard: usize, nshards: usize,
                 }
             }
         }
+        // C09: exhaustive method sequences over 3 names x {no code, 3 codes}, constants interleaved
+        "ids" => {
+            let maxm = if thorough { 5 } else { 3 };
+            let names = ["a", "b", "c"];
+            let codes = ["", " = 1", " = 2", " = 01"];
+            let per = names.len() * codes.len();
+            let mut idx = 0usize;
+            for nm in 1..=maxm {
+                let total = per.pow(nm as u32);
+                for code in 0..total {
+                    idx += 1;
+                    if !mine(idx) {
+                        continue;
+                    }
+                    let mut c = code;
+                    let mut body = String::new();
+                    for k in 0..nm {
+                        let sel = c % per;
+                        c /= per;
+                        if (code + k) % 4 == 1 {
+                            body.push_str(&format!("    const int K{} = {};\n", k, k));
+                        }
+                        body.push_str(&format!("    void {}(){};\n", names[sel % 3], codes[sel / 3]));
+                    }
+                    let main = format!("package m;\ninterface Main {{\n{}}}\n", body);
+                    em.case(idx as u64, validate_case(&vec![("main".to_owned(), main)]));
+                }
+            }
+            // random longer sequences with large and zero-padded codes
+            let n = share(if thorough { 20000 } else { 300 });
+            for _ in 0..n {
+                let sd = rng.next();
+                let mut r = Rng::new(sd);
+                let len = r.range(4, 12);
+                let mut body = String::new();
+                for _ in 0..len {
+                    let code = match r.below(7) {
+                        0 => " = 4294967295".to_owned(),
+                        1 => " = 4294967296".to_owned(), // does not fit u32: Error, counts as absent
+                        2 => format!(" = 000{}", r.below(3)),
+                        3 | 4 => format!(" = {}", r.below(4)),
+                        _ => String::new(),
+                    };
+                    if r.chance(1, 5) {
+                        body.push_str(&format!("    const int K{} = 1;\n", r.below(3)));
+                    }
+                    body.push_str(&format!("    void {}(){};\n", *r.pick(&["a", "b", "c", "d", "e", "f"]), code));
+                }
+                let main = format!("package m;\ninterface Main {{\n{}}}\n", body);
+                em.case(sd, validate_case(&vec![("main".to_owned(), main)]));
+            }
+        }
         _ => {
             eprintln!("unknown suite {}", suite);
             std::process::exit(2);
